@@ -36,7 +36,15 @@ def reachable(model: Model, start: FuncInfo, module: Optional[str] = None) -> Li
     todo = [start]
     while todo:
         f = todo.pop()
-        for c in module_callees(model, f, module):
+        nxt = list(module_callees(model, f, module))
+        # a private class of the module that f instantiates or names: its methods run on f's behalf
+        for n in ast.walk(f.node):
+            if isinstance(n, ast.Name) and isinstance(n.ctx, ast.Load) and n.id.startswith("_"):
+                q = model.resolve_name(f.module, n.id)
+                ci = model.classes.get(q) if q else None
+                if ci is not None and ci.module == module:
+                    nxt.extend(ci.methods.values())
+        for c in nxt:
             if c.qualname not in seen:
                 seen[c.qualname] = c
                 todo.append(c)
